@@ -145,3 +145,28 @@ func ZzC18NeutrinoK3() { zzC18HandlerConc(1, 3, 2) }
 // no preemptive switches: the handler runs whenever the producer blocks
 func ZzC18BtcdBurst()     { zzC18Handler(0, []int{5, -3, 36, -10, 20}, 0) }
 func ZzC18NeutrinoBurst() { zzC18Handler(1, []int{5, -3, 36, -10, 20}, 0) }
+
+// zzC18HandlerStopBacklog: the consumer has stopped reading (the wallet is
+// shutting down) while notifications are still queued; Stop must still end
+// the handler (its WaitForShutdown returns, its output channel is closed).
+func zzC18HandlerStopBacklog(kind, k int) {
+	verifrt.PreemptionBound(1)
+	q := zzStartHandler(kind)
+	for i := 0; i < k; i++ {
+		q.in <- i
+	}
+	verifrt.Reach("stop-with-backlog")
+	q.stop() // returns only when the handler goroutine has ended
+	verifrt.Quiesce()
+	// whatever is delivered after the stop, the channel ends closed
+	for n := 0; n <= k; n++ {
+		if _, open := <-q.out; !open {
+			verifrt.Reach("c18-end")
+			return
+		}
+	}
+	verifrt.Assert(false, "c18-handler-stop-terminates-the-handler")
+}
+
+func ZzC18BtcdStopBacklog()     { zzC18HandlerStopBacklog(0, 3) }
+func ZzC18NeutrinoStopBacklog() { zzC18HandlerStopBacklog(1, 3) }
